@@ -372,6 +372,9 @@ func rulesC08(e *Engine, r *Report) {
 		r.Check(ok && n == 1, "R08.8", "client.(*recoverFile).GetSendSize: sum of End-Beg over all of p0.left", e.Pos(fn.Pos()),
 			"the send size of a resumed file is not the sum over the whole list of missing ranges: "+strings.Join(got, "; "), 1, got...)
 	}
+	// ---------------------------------------------------------------- R08.9
+	r.Rule("R08.9", "what counts as already held is held of this version: the sender skips byte ranges after a restart only on the strength of a receiver's partial with the same hash as the file to be sent (same check as R07.11)")
+	checkResumeSameVersion(e, r, "R08.9")
 }
 
 // constOr renders a package-level string constant as a canonical literal.
